@@ -5,6 +5,15 @@ V = "/verif"
 R_NOTE = "Trusts the Go reference model to state the property (it is ~100 lines written from the statement, not from the implementation) and the instrumented node lambdas to report executions faithfully; native goroutine scheduling is not controlled here (completion-order independence is C03's business); bounds as stated in the evidence rule."
 S_NOTE = "Trusts the source rewriter + vsched shim to model Go channel/select/mutex/once/atomic semantics; sequential consistency at synchronisation granularity (node bodies are atomic between explicit yields); happens-before state caching assumes the protocol code is data-race free (races are the business of the separate free-running -race pass); map iteration order restricted to ascending and descending (both explored)."
 checks = {
+ "C14": dict(engine="R", technique="exhaustive enumeration of all chunk sequences up to the length bound over per-type alphabets; every sequence and every split point executed on the real concatenation entry points; independent reference model for message fields",
+   text="All chunk sequences (length <=3/4 quick, <=4/5 thorough) over alphabets of strings, messages (role/content, ids, response meta, extras incl. nil and nested maps, tool-call fragments), message lists, maps, registered and unregistered custom types are concatenated through ConcatMessages, ConcatMessageStream, the generic ConcatItems and a compiled graph; oracle: never a panic, deterministic over repetitions, invariant under every re-chunking split, text/tool-call arguments in arrival order and fragments merged by index. Right level: concatenation is a pure function over a finite alphabet of short sequences.",
+   note="Trusts the canonical rendering used to compare results and the small independent model for message fields; alphabets are factored into aspect families plus pairwise mixes rather than one full product; error texts are not compared.", design="3/C14"),
+ "C16": dict(engine="R", technique="exhaustive enumeration of (graph, option set) pairs within bounds against a routing reference model; every pair executed on the implementation (Invoke+Stream, consecutive calls)",
+   text="For a menu of graphs of nesting depth <=2 (<=3 thorough) mixing lambdas with two option types, a chat model, a tools node, pass-through nodes, nested graphs/chains/workflows with node keys reused across levels, every multiset of <=3 options (undesignated, designated by key/path/several paths, invalid designations, callbacks) is run; per node the received options must equal the routing model's, the call errors iff the designation is invalid, and consecutive calls do not leak. Right level: option routing is a deterministic function of a finite configuration space.",
+   note="Trusts the routing model written from the statement and the doc comments; decisions where the statement is silent are listed in the evidence notes (undesignated lambda options filtered by type identity, callbacks designated to a graph node may fire inside it).", design="3/C16"),
+ "C18": dict(engine="R", technique="exhaustive enumeration of scripted model behaviours (scripts x chunkings x configurations) against the unfolding reference model; every script executed on the real agent with Generate and Stream",
+   text="All model scripts of <=3 (<=4 thorough) assistant turns with 0-2 tool calls over {t1, t2(return-directly), unknown}, streamed in every chunking of <=3 chunks compatible with the configured tool-call checker, x tool sets, return-directly sets, step limits, message modifier, invokable/streamable tools are run on react.NewAgent; the k-th model call must see exactly the unfolded history, the answer must be the first tool-call-free assistant message or the return-directly result, the step limit must stop the run, Generate and Stream must agree. Right level: the agent is a deterministic state machine driven by a finite script.",
+   note="Trusts the scripted fake chat model and recording tools; details the statement leaves open (several return-directly calls in one turn, exact step-limit cutoff) are accepted either way and listed in the evidence notes.", design="3/C18"),
  "C05": dict(engine="R", technique="exhaustive enumeration of interrupt/resume histories (programs x interrupt point sets x branch outcomes x resume paradigm patterns) replayed call by call on the implementation through a byte-level store; differential against the uninterrupted reference-model run",
    text="Every history within the bounds (all small flat shapes in the three modes, curated nested graphs incl. cycles through a sub-graph node, re-run nodes; every set of <=2 interrupt points per nesting level; every branch-outcome sequence; Invoke/Stream/alternating resumes) is executed to completion on the real implementation with real serialisation; final output and the accumulated multiset of (node, input) executions must equal the uninterrupted model run. Right level: interrupt points are crash points of a deterministic history; the space of short histories is finite and enumerable.",
    note=R_NOTE, design="3/C05"),
